@@ -50,7 +50,9 @@ type jshard struct {
 	Data  []jsd `json:"data"`
 }
 type jpred struct {
-	Op    string `json:"op"` // cmp | and | or
+	Op    string `json:"op"`            // cmp | val | and | or
+	Vop   string `json:"vop,omitempty"` // val: eq ne lt le gt ge  (field value  vop  N)
+	N     int64  `json:"n,omitempty"`
 	Neq   bool   `json:"neq,omitempty"`
 	K     string `json:"k,omitempty"`
 	V     string `json:"v,omitempty"`
@@ -208,6 +210,19 @@ func node(p *jpred) *datatypes.Node {
 			Children: []*datatypes.Node{
 				{NodeType: datatypes.Node_TypeTagRef, Value: &datatypes.Node_TagRefValue{TagRefValue: k}},
 				{NodeType: datatypes.Node_TypeLiteral, Value: &datatypes.Node_StringValue{StringValue: p.V}},
+			},
+		}
+	case "val":
+		cmp := map[string]datatypes.Node_Comparison{
+			"eq": datatypes.Node_ComparisonEqual, "ne": datatypes.Node_ComparisonNotEqual,
+			"lt": datatypes.Node_ComparisonLess, "le": datatypes.Node_ComparisonLessEqual,
+			"gt": datatypes.Node_ComparisonGreater, "ge": datatypes.Node_ComparisonGreaterEqual}[p.Vop]
+		n = &datatypes.Node{
+			NodeType: datatypes.Node_TypeComparisonExpression,
+			Value:    &datatypes.Node_Comparison_{Comparison: cmp},
+			Children: []*datatypes.Node{
+				{NodeType: datatypes.Node_TypeFieldRef, Value: &datatypes.Node_FieldRefValue{FieldRefValue: "$"}},
+				{NodeType: datatypes.Node_TypeLiteral, Value: &datatypes.Node_IntegerValue{IntegerValue: p.N}},
 			},
 		}
 	case "and", "or":
@@ -458,6 +473,9 @@ func predTerm(p *jpred) string {
 	switch p.Op {
 	case "cmp":
 		return fmt.Sprintf("(PCmp %s %s %s)", vh.Bool(p.Neq), cstr(p.K), cstr(p.V))
+	case "val":
+		op := map[string]string{"eq": "VEq", "ne": "VNe", "lt": "VLt", "le": "VLe", "gt": "VGt", "ge": "VGe"}[p.Vop]
+		return fmt.Sprintf("(PVal %s %s)", op, zz(p.N))
 	case "and":
 		return fmt.Sprintf("(PAnd %s %s)", predTerm(p.A), predTerm(p.B))
 	default:
@@ -507,7 +525,7 @@ func caseTerm(c *jcase) string {
 		}
 		gs[i] = fmt.Sprintf("(mkG %s %s %s)", vh.List(vals), strsTerm(g.Keys), rowsTerm(g.Rows))
 	}
-	return fmt.Sprintf("(mkCase %s %s %s %s %s %s %s)", vh.List(shs), zz(c.Start), zz(c.End), pred, req,
+	return fmt.Sprintf("(mkCase [(\"f1\", 1%%N)] %s %s %s %s %s %s %s)", vh.List(shs), zz(c.Start), zz(c.End), pred, req,
 		rowsTerm(c.Rows), vh.List(gs))
 }
 
@@ -566,8 +584,8 @@ func genDataset(w *vh.W) []jshard {
 			if sd.Tags == nil {
 				sd.Tags = [][2]string{}
 			}
-			for _, f := range []string{"f0", "f1"} {
-				if r.IntN(10) < 3 {
+			for _, f := range []string{"f0", "f1", "f2"} { // f0, f2 integer; f1 float
+				if r.IntN(10) < 3 || (f == "f2" && r.IntN(2) == 0) {
 					continue
 				}
 				n := 1 + r.IntN(3)
@@ -625,9 +643,18 @@ func genCmp(w *vh.W) *jpred {
 	}
 	return p
 }
+
+// value comparisons are generated only while genVal is set; literals in [0, genMaxVal+1]
+var genVal bool
+var genMaxVal int64
+
 func genPred(w *vh.W, depth int) *jpred {
 	r := w.Rng
 	if depth == 0 || r.IntN(3) == 0 {
+		if genVal && r.IntN(3) == 0 {
+			return &jpred{Op: "val", Vop: []string{"eq", "ne", "lt", "le", "gt", "ge"}[r.IntN(6)],
+				N: r.Int64N(genMaxVal + 2), Paren: r.IntN(5) == 0}
+		}
 		return genCmp(w)
 	}
 	op := "and"
@@ -668,9 +695,6 @@ func genQuery(w *vh.W, c *jcase) {
 	if c.End < c.Start && r.IntN(4) != 0 {
 		c.Start, c.End = c.End, c.Start
 	}
-	if r.IntN(4) != 0 {
-		c.Pred = genPred(w, 2)
-	}
 	switch r.IntN(5) {
 	case 0, 1:
 		c.Req = "filter"
@@ -678,6 +702,26 @@ func genQuery(w *vh.W, c *jcase) {
 		c.Req = "groupby"
 	default:
 		c.Req = "groupnone"
+	}
+	// field-value comparisons in a third of the predicates.  Not for GroupBy over more than 12
+	// rows: the filter state of the shared cursors then depends on the row order produced by Go's
+	// unstable sort.Slice, which the model does not reproduce.
+	rows := storedRows(c.Shards)
+	genVal = r.IntN(3) == 0 && !(c.Req == "groupby" && len(rows) > 12)
+	genMaxVal = 0
+	for _, sh := range c.Shards {
+		for _, sd := range sh.Data {
+			for _, f := range sd.Fields {
+				for _, p := range f.Pts {
+					if p[1] > genMaxVal {
+						genMaxVal = p[1]
+					}
+				}
+			}
+		}
+	}
+	if r.IntN(4) != 0 {
+		c.Pred = genPred(w, 2)
 	}
 	if c.Req != "filter" {
 		c.AllTime = r.IntN(5) == 0
@@ -709,7 +753,147 @@ func nontrivial(c *jcase) bool {
 	return n >= 2 && (multi || len(c.Shards) == 1)
 }
 
+// ---- the rows of a request as far as they can be told from the inputs ----
+
+type srow struct {
+	m     string
+	tags  [][2]string
+	field string
+}
+
+// storedRows: every series of the data set paired with every field of its measurement, in
+// (measurement, tags, field) order = the order of the index series cursor.
+func storedRows(shards []jshard) []srow {
+	fields := map[string]map[string]bool{}
+	type ser struct {
+		m    string
+		tags [][2]string
+	}
+	seen := map[string]ser{}
+	for _, sh := range shards {
+		for _, sd := range sh.Data {
+			if fields[sd.M] == nil {
+				fields[sd.M] = map[string]bool{}
+			}
+			for _, f := range sd.Fields {
+				fields[sd.M][f.Name] = true
+			}
+			seen[sd.M+"|"+fmt.Sprint(sd.Tags)] = ser{sd.M, sd.Tags}
+		}
+	}
+	var sers []ser
+	for _, s := range seen {
+		sers = append(sers, s)
+	}
+	sort.Slice(sers, func(i, j int) bool {
+		a, b := sers[i], sers[j]
+		if a.m != b.m {
+			return a.m < b.m
+		}
+		for k := 0; k < len(a.tags) && k < len(b.tags); k++ {
+			if a.tags[k] != b.tags[k] {
+				if a.tags[k][0] != b.tags[k][0] {
+					return a.tags[k][0] < b.tags[k][0]
+				}
+				return a.tags[k][1] < b.tags[k][1]
+			}
+		}
+		return len(a.tags) < len(b.tags)
+	})
+	var out []srow
+	for _, s := range sers {
+		for _, f := range vh.SortedKeys(fields[s.m]) {
+			out = append(out, srow{s.m, s.tags, f})
+		}
+	}
+	return out
+}
+
+// reduceLit partially evaluates the predicate on a row like influxql.Reduce does:
+// 1 = literal true, 0 = literal false, -1 = an expression on the field value remains.
+func reduceLit(p *jpred, r srow) int {
+	switch p.Op {
+	case "cmp":
+		v := ""
+		switch p.K {
+		case "_measurement":
+			v = r.m
+		case "_field":
+			v = r.field
+		default:
+			for _, kv := range r.tags {
+				if kv[0] == p.K {
+					v = kv[1]
+				}
+			}
+		}
+		if (v == p.V) != p.Neq {
+			return 1
+		}
+		return 0
+	case "val":
+		return -1
+	}
+	x, y := reduceLit(p.A, r), reduceLit(p.B, r)
+	unit, zero := 1, 0 // and
+	if p.Op == "or" {
+		unit, zero = 0, 1
+	}
+	switch {
+	case x == zero || y == zero:
+		return zero
+	case x == unit:
+		return y
+	case y == unit:
+		return x
+	}
+	return -1
+}
+
+// rowOK: the row condition (value comparisons count as true)
+func rowOK(p *jpred, r srow) bool {
+	switch p.Op {
+	case "val":
+		return true
+	case "and":
+		return rowOK(p.A, r) && rowOK(p.B, r)
+	case "or":
+		return rowOK(p.A, r) || rowOK(p.B, r)
+	}
+	return reduceLit(p, r) == 1
+}
+
+// staleShape: over >= 2 shards, a row WITH a value condition and a row of the same field type
+// WITHOUT one are both part of the request; for ReadFilter the former must come first in row
+// order (a group read probes every row on the shared cursors before it returns the first group).
+func staleShape(c *jcase) bool {
+	if c.Pred == nil || len(c.Shards) < 2 {
+		return false
+	}
+	armed := map[bool]bool{} // field type (float?) -> a row with a condition was seen
+	plain := map[bool]bool{} // field type -> a row without condition was seen
+	for _, r := range storedRows(c.Shards) {
+		if !rowOK(c.Pred, r) {
+			continue
+		}
+		ty := r.field == "f1"
+		if reduceLit(c.Pred, r) == 1 {
+			if armed[ty] {
+				return true
+			}
+			plain[ty] = true
+		} else {
+			armed[ty] = true
+			if plain[ty] && c.Req != "filter" {
+				return true
+			}
+		}
+	}
+	return false
+}
+
 // known-finding signatures, decided from the INPUT shape only
+const sigStale = "stale-value-filter-across-series"
 const sigMaxTime = "point-at-max-nano-time-unreadable"
 const sigNulKey = "group-key-nul-collision"
 
@@ -736,6 +920,9 @@ func signature(c *jcase) string {
 	}
 	if hasNul && c.Req == "groupby" && len(c.Keys) >= 2 {
 		return sigNulKey
+	}
+	if staleShape(c) {
+		return sigStale
 	}
 	return ""
 }
@@ -781,7 +968,7 @@ func runCase(w *vh.W, e *env, c *jcase) {
 
 func main() {
 	w := vh.New("C21", "From Coq Require Import String Ascii.\nFrom Verif Require Import Base.Prelude Model.C21.\nOpen Scope string_scope.", "case", "check")
-	w.Rule = "dataset: 1-3 shard groups of 10ns (at 0,10,20; random creation order; a third flushed to TSM half-way), 1-7 (sometimes 10-18) series out of 2 measurements x {t0,t1} x {absent,a,b}, fields f0(int)/f1(float), 1-6 points per series-field-shard biased to the first/last instant of the shard, all values distinct; 6 (12 when n >= 2000) requests per dataset: ReadFilter / ReadGroup(GroupBy|GroupNone, 0-3 keys of t0,t1,_measurement,_field,tx, HintSchemaAllTime 1/5) with range ends from {MinInt64, MinNanoTime, shard boundaries +-1, random in [-2,33), MaxNanoTime, MaxInt64} and a predicate (3/4) of depth <= 2 over = / != on _measurement,_field,t0,t1,tx with AND/OR/parentheses. Non-trivial: >= 2 returned rows have points and (when there are >= 2 shards) some row has points of more than one shard. Distinct: distinct Gallina terms."
+	w.Rule = "dataset: 1-3 shard groups of 10ns (at 0,10,20; random creation order; a third flushed to TSM half-way), 1-7 (sometimes 10-18) series out of 2 measurements x {t0,t1} x {absent,a,b}, fields f0(int)/f1(float)/f2(int), 1-6 points per series-field-shard biased to the first/last instant of the shard, all values distinct; 6 (12 when n >= 2000) requests per dataset: ReadFilter / ReadGroup(GroupBy|GroupNone, 0-3 keys of t0,t1,_measurement,_field,tx, HintSchemaAllTime 1/5) with range ends from {MinInt64, MinNanoTime, shard boundaries +-1, random in [-2,33), MaxNanoTime, MaxInt64} and a predicate (3/4) of depth <= 2 over = / != on _measurement,_field,t0,t1,tx with AND/OR/parentheses; in a third of the requests (not for GroupBy over > 12 rows) leaves are also field-value comparisons ($ = != < <= > >= integer literal within the data set's value range). Non-trivial: >= 2 returned rows have points and (when there are >= 2 shards) some row has points of more than one shard. Distinct: distinct Gallina terms."
 	var rc jcase
 	if w.ReplayCase(&rc) {
 		e := newEnv(rc.Shards)
@@ -821,6 +1008,37 @@ func main() {
 			runCase(w, e, &c)
 		}
 		e.close()
+	}
+	{ // field-value conditions; the exact shape (_field = "a" AND $ > 5) OR _field = "b" over 2 and 3 shards
+		mk := func(t int64, v int64) jsd {
+			return jsd{M: "cpu", Tags: [][2]string{}, Fields: []jfield{
+				{Name: "a", Pts: [][2]int64{{t, v}, {t + 5, v * 10}}}, {Name: "b", Pts: [][2]int64{{t, v}, {t + 5, v * 10}}}}}
+		}
+		shards := []jshard{
+			{Start: 0, End: 10, Data: []jsd{mk(1, 1)}},
+			{Start: 10, End: 20, Data: []jsd{mk(11, 2)}},
+			{Start: 20, End: 30, Flush: true, Data: []jsd{mk(21, 3)}},
+		}
+		val := func(op string, n int64) *jpred { return &jpred{Op: "val", Vop: op, N: n} }
+		fld := func(f string) *jpred { return &jpred{Op: "cmp", K: "_field", V: f} }
+		exact := &jpred{Op: "or", A: &jpred{Op: "and", Paren: true, A: fld("a"), B: val("gt", 5)}, B: fld("b")}
+		for _, n := range []int{1, 2, 3} {
+			e := newEnv(shards[:n])
+			for _, q := range []jcase{
+				{Start: 0, End: 30, Req: "filter", Pred: exact},
+				{Start: 0, End: 30, Req: "filter", Pred: val("gt", 5)},
+				{Start: 0, End: 30, Req: "filter", Pred: &jpred{Op: "or", A: &jpred{Op: "and", A: fld("b"), B: val("le", 20)}, B: fld("a")}},
+				{Start: 0, End: 30, Req: "filter", Pred: &jpred{Op: "or", A: &jpred{Op: "and", A: fld("a"), B: val("gt", 5)}, B: &jpred{Op: "and", A: fld("b"), B: val("lt", 25)}}},
+				{Start: 0, End: 30, Req: "groupby", Keys: []string{"_field"}, Pred: exact},
+				{Start: 0, End: 30, Req: "groupnone", Keys: []string{}, Pred: exact},
+				{Start: 0, End: 30, Req: "filter", Pred: &jpred{Op: "and", A: fld("a"), B: val("ne", 2)}},
+			} {
+				c := q
+				c.Shards = shards[:n]
+				runCase(w, e, &c)
+			}
+			e.close()
+		}
 	}
 	{ // the last writable instant: the shard group [MaxNanoTime-6, MaxNanoTime+1)
 		const mx = models.MaxNanoTime
